@@ -911,6 +911,14 @@ class Aggregate:
         self.max_depth = 0
         self.remaining = []
 
+    def _keep_violation(self, v):
+        # a few counterexamples per distinct label, every label kept: a flood of violations under one label (e.g. a listed
+        # known finding) must never crowd out a violation under another
+        per = self.__dict__.setdefault("_viol_per_label", collections.Counter())
+        if per[v["label"]] < 6 and len(self.violations) < 20000:
+            per[v["label"]] += 1
+            self.violations.append(v)
+
     def add_path(self, s):
         self.paths[s["status"]] += 1
         self.nq.update(s["nq"])
@@ -918,8 +926,7 @@ class Aggregate:
         for lab, st in s["obligations"]:
             self.obl[(lab, st)] += 1
         for v in s["violations"]:
-            if len(self.violations) < 200:
-                self.violations.append(v)
+            self._keep_violation(v)
         self.covers.update(s["covers"])
         self.opaque += s["opaque"]
         if s["status"] not in ("ok",):
@@ -932,8 +939,7 @@ class Aggregate:
         self.solver_s += o.solver_s
         self.obl.update(o.obl)
         for v in o.violations:
-            if len(self.violations) < 200:
-                self.violations.append(v)
+            self._keep_violation(v)
         self.covers.update(o.covers)
         self.opaque += o.opaque
         self.details.update(o.details)
